@@ -321,6 +321,7 @@ Lemma execute_refines id params st sc rep ss' s :
 Proof.
   unfold abs_handle, handle. intros H Hc.
   destruct (lookup id st) as [sd|]; [|discriminate].
+  destruct (params_valid fpext sd params); cbn [negb] in H |- *; [|discriminate].
   unfold on_execute. destruct (pop_x sc) as [x sc'].
   destruct (x_ret x) as [t|] eqn:Et; cbn [no_tag negb] in H; [discriminate|].
   cbv zeta in H.
